@@ -60,6 +60,8 @@ pub(crate) struct ExtentReadGuard<'a>(&'a AtomicU32);
 
 impl Drop for ExtentReadGuard<'_> {
     fn drop(&mut self) {
+        #[cfg(feoxdb_verif)]
+        crate::verif::event("extent_unpin", self.0 as *const AtomicU32 as u64, 0, 0);
         self.0.fetch_sub(1, Ordering::Release);
     }
 }
@@ -379,6 +381,23 @@ impl Record {
 
     pub(crate) fn extent_has_readers(&self) -> bool {
         self.extent_state.load(Ordering::Acquire) & EXTENT_READERS != 0
+    }
+
+    /// Raw extent state word (retired bit | reader count).
+    #[cfg(feoxdb_verif)]
+    pub fn verif_extent_state(&self) -> u32 {
+        self.extent_state.load(Ordering::Acquire)
+    }
+
+    /// Report a successful extent pin to the simulator.
+    #[cfg(feoxdb_verif)]
+    pub(crate) fn verif_note_pin(&self, sector: u64) {
+        crate::verif::event(
+            "extent_pin",
+            &self.extent_state as *const AtomicU32 as u64,
+            sector,
+            ((self.key.len() as u64) << 32) | self.value_len as u64,
+        );
     }
 }
 
